@@ -800,12 +800,22 @@ fn storm_main(o: &Opts) -> i32 {
     0
 }
 
+fn gen_id(key: &[u8], ts: u64) -> String {
+    format!("{}@{}", String::from_utf8_lossy(key), ts)
+}
+
 fn write_pin_events(raw: &[RawEv], path: &str) {
     let mut f = std::fs::OpenOptions::new().create(true).append(true).open(path).expect("pinout");
     writeln!(f, "{}", json!({"e": "reset"})).unwrap();
     for e in raw {
         match e.kind {
-            "pin" => writeln!(f, "{}", json!({"e": "pin", "id": e.a % 1_000_000_007, "tid": e.tid})).unwrap(),
+            "pin" => writeln!(f, "{}", json!({"e": "pin", "id": e.a % 1_000_000_007, "tid": e.tid, "g": gen_id(&e.key, e.b)})).unwrap(),
+            // the retirement pass on the same generations (PinProto.tla: bit, reader count, marker, release)
+            "ret_bit" => writeln!(f, "{}", json!({"e": "ret_bit", "g": gen_id(&e.key, e.a), "s": e.c})).unwrap(),
+            "ret_wait" => writeln!(f, "{}", json!({"e": "ret_wait", "g": gen_id(&e.key, e.a), "why": e.b})).unwrap(),
+            "ret_mark" => writeln!(f, "{}", json!({"e": "ret_mark", "g": gen_id(&e.key, e.a), "s": e.c, "n": e.b})).unwrap(),
+            "ret_marked" => writeln!(f, "{}", json!({"e": "ret_marked"})).unwrap(),
+            "release" if e.c == 0 => writeln!(f, "{}", json!({"e": "release", "s": e.a, "n": e.b})).unwrap(),
             "unpin" => writeln!(f, "{}", json!({"e": "unpin", "id": e.a % 1_000_000_007, "tid": e.tid})).unwrap(),
             "pread" => writeln!(f, "{}", json!({"e": "pread", "tid": e.tid, "s": e.a, "n": e.b})).unwrap(),
             "wb" if e.a >= 16 => writeln!(f, "{}", json!({"e": "wb", "tid": e.tid, "s": e.a, "n": e.b})).unwrap(),
